@@ -1337,6 +1337,6 @@ META = dict(
         "ends with the empty guard preserved by every override, sort key/direction/stability, concat order, the "
         "comparator truth table of after/before (every combination of inclusive/head/tail flags, by partial "
         "evaluation over the flags) and the between plumbing, constructor kwargs against declared fields for every "
-        "item class, and declared-field frames for default/empty/from_dict. Hold ends (R10), the four accessor generators of Property.py (R11: own key bound per iteration, no other loop variable read late, no early exit, every branch stores, the stored value is the parameter itself), item constructors pass every field on unchanged (R7), re-definitions of list operations in subclasses forward to the decided definition and `df` stays a plain field on every list class (R12), move_start_to / move_end_to shift by first_offset() / last_offset() (R3)."),
+        "item class, and declared-field frames for default/empty/from_dict. Hold ends (R10), the four accessor generators of Property.py (R11: own key bound per iteration, no other loop variable read late, no early exit, every branch stores, the stored value is the parameter itself), item constructors pass every field on unchanged (R7), re-definitions of list operations in subclasses forward to the decided definition and `df` stays a plain field on every list class (R12), move_start_to / move_end_to shift by first_offset() / last_offset() (R3). Every exit of append() hands back a list that passed 'sorted() if sort' (R5); the rows repeated by empty(n) are renumbered (R13)."),
     not_decided="-",
 )
